@@ -147,6 +147,27 @@ def run_history(c, I):
                 elif name == "write":
                     store.write(op[1], refs[op[2]]["model"])
                     cur[op[1]] = refs[op[2]]
+                elif name == "touch":
+                    # the caller's own model object k is revised in place and NOT written: every slot keeps what it was given
+                    revision[0] += 1
+                    setattr(refs[op[2]]["model"], "rev%d" % revision[0], revision[0] + 0.5)
+                    out["written"].append(_observe(I, refs[op[2]]["model"], refs[op[2]]))
+                elif name == "scribble":
+                    # the caller changes the model it READ and does not write it back: the store keeps what was written
+                    m = store.read(op[1])
+                    if m is None:
+                        out["reads"].append({"op": k, "slot": op[1], "none": True})
+                        break
+                    out["reads"].append({"op": k, "slot": op[1], "obs": _observe(I, m, cur[op[1]])})
+                    setattr(m, "scribble", 9.5)
+                elif name == "amend":
+                    # the caller's OWN model object k is revised in place (one more fixed value on its root) and
+                    # written again: the same Python object now denotes another model
+                    revision[0] += 1
+                    setattr(refs[op[2]]["model"], "rev%d" % revision[0], revision[0] + 0.5)
+                    out["written"].append(_observe(I, refs[op[2]]["model"], refs[op[2]]))
+                    store.write(op[1], refs[op[2]]["model"])
+                    cur[op[1]] = refs[op[2]]
                 elif name in ("writeback", "revise"):
                     # a model taken from the store and written back, as it is or revised (one more fixed value on its
                     # root); the model read is observed (it is a read), what is written is recorded at write time
